@@ -103,6 +103,12 @@ pub enum DStep {
     /// flush. Whatever the reopened store shows, a document it does not list must have left
     /// nothing behind.
     RemoveCrash { d: u8, at: u32, l2: bool },
+    /// last step of a run: the process dies without a flush (optionally with an age-commit placed
+    /// inside one more settings operation just before). The reopened store may have lost recent
+    /// work, but what it shows must be made of things that happened: a peer list of at most five
+    /// distinct peers that were registered for that document, a policy that was set for it (or
+    /// the default), a capability that was imported for it, nothing for documents it does not list.
+    CrashEnd { l2: bool },
 }
 
 /// A read-only document with a crafted id next to a real one in byte order (document index
@@ -341,6 +347,9 @@ impl Scenario for Docs {
         if self.mode == Mode::Remove && backend == Backend::Disk && rng.chance(1, 4) {
             steps.push(DStep::RemoveCrash { d: pick_doc(rng), at: rng.below(5) as u32, l2: rng.chance(1, 2) });
         }
+        if matches!(self.mode, Mode::Peers | Mode::PeersClockFault | Mode::Policy | Mode::Cap) && backend == Backend::Disk && rng.chance(1, 5) {
+            steps.push(DStep::CrashEnd { l2: rng.chance(1, 2) });
+        }
         DocsPlan { seed: rng.next_u64(), backend, ghosts, steps }
     }
 
@@ -408,6 +417,12 @@ impl Docs {
         let mut m: Vec<DocModel> = vec![DocModel::default(); crate::world::N_DOCS + plan.ghosts.len()];
         let mut clock: i64 = 1_000_000;
         let mode = self.mode;
+        // per document, since its (re-)creation: peers ever registered, policies ever set, whether
+        // the write capability was ever imported
+        let mut ever_peers: Vec<BTreeSet<u8>> = vec![BTreeSet::new(); m.len()];
+        let mut ever_policies: Vec<Vec<Vec<u8>>> = vec![Vec::new(); m.len()];
+        let mut ever_write: Vec<bool> = vec![false; m.len()];
+        let mut ever_existed: Vec<bool> = vec![false; m.len()];
         for (si, step) in plan.steps.iter().enumerate() {
             match step {
                 DStep::ImportCap { d, write } => {
@@ -415,6 +430,8 @@ impl Docs {
                     let cap = if *write { Capability::Write(w.docs[*d as usize].clone()) } else { Capability::Read(plan.ns(*d)) };
                     let before: Vec<Option<bool>> = m.iter().map(|x| x.cap).collect();
                     let r = sut.store().import_namespace(cap).map_err(|e| harness(format!("import: {e:#}")))?;
+                    ever_existed[*d as usize] = true;
+                    ever_write[*d as usize] |= *write;
                     let dm = &mut m[*d as usize];
                     dm.cap = Some(dm.cap.unwrap_or(false) || *write);
                     cx.ev("import", format!("d{d} write={write} -> {r:?}"));
@@ -511,6 +528,8 @@ impl Docs {
                                 cx.probe("removed_nonempty_document");
                             }
                             *dm = DocModel::default();
+                            // (what the document had in its earlier life stays acceptable after a
+                            // crash: the removal itself may not have become durable)
                         }
                     }
                     if mode == Mode::Remove {
@@ -528,7 +547,10 @@ impl Docs {
                     let dm = &mut m[*d as usize];
                     cx.ev("set-policy", format!("d{d} -> {}", r.is_ok()));
                     match (r.is_ok(), dm.cap.is_some()) {
-                        (true, true) => dm.policy = Some(p.clone()),
+                        (true, true) => {
+                            ever_policies[*d as usize].push(postcard::to_stdvec(&p.real()).unwrap());
+                            dm.policy = Some(p.clone())
+                        }
                         (false, false) => {
                             cx.probe("policy_for_missing_document_refused");
                         }
@@ -556,6 +578,7 @@ impl Docs {
                     cx.ev("register", format!("d{d} p{peer} dt={dt} -> {}", r.is_ok()));
                     match (r.is_ok(), dm.cap.is_some()) {
                         (true, true) => {
+                            ever_peers[*d as usize].insert(*peer);
                             dm.peers.retain(|p| p != peer);
                             dm.peers.insert(0, *peer);
                             if dm.peers.len() > 5 {
@@ -680,6 +703,36 @@ impl Docs {
                 }
                 DStep::Observe => {
                     self.check_all(plan, sut.store(), &m, si, cx)?;
+                }
+                DStep::CrashEnd { l2 } => {
+                    if sut.backend != Backend::Disk {
+                        continue;
+                    }
+                    sut.crash(if *l2 { Loss::L2 } else { Loss::L1 })?;
+                    cx.fault(if *l2 { "crash_without_flush_L2" } else { "crash_without_flush_L1" });
+                    cx.ev("crash-end", format!("l2={l2}"));
+                    let default_policy = postcard::to_stdvec(&DownloadPolicy::default()).unwrap();
+                    for dd in 0..m.len() as u8 {
+                        let i = dd as usize;
+                        let o = observe(sut.store(), plan.ns(dd)).map_err(harness)?;
+                        let problem = if o.cap.is_none() && (o.peers.is_some() || o.policy != default_policy || !o.entries.is_empty() || !o.heads.is_empty()) {
+                            Some(("unlisted-document", format!("is not listed but shows peers={:?} policy-set={} entries={} heads={}", o.peers.as_ref().map(|p| p.len()), o.policy != default_policy, o.entries.len(), o.heads.len())))
+                        } else if o.cap.is_some() && !ever_existed[i] {
+                            Some(("capability", "is listed although no capability was ever imported for it".to_string()))
+                        } else if o.cap == Some(1) && !ever_write[i] {
+                            Some(("capability", "is listed as writable although the write capability was never imported".to_string()))
+                        } else if let Some(p) = o.peers.as_ref().filter(|p| p.len() > 5 || p.iter().collect::<BTreeSet<_>>().len() != p.len() || p.iter().any(|x| !ever_peers[i].iter().any(|q| &w.peers[*q as usize] == x))) {
+                            Some(("peers", format!("has a peer list of {} entries that is too long, repeats a peer or names a peer never registered for it", p.len())))
+                        } else if o.policy != default_policy && !ever_policies[i].contains(&o.policy) {
+                            Some(("policy", "returns a download policy that was never set for it".to_string()))
+                        } else {
+                            None
+                        };
+                        if let Some((what, detail)) = problem {
+                            return Err(Violation::new(format!("after-crash/{what}"), format!("step {si}: after an unflushed crash d{dd} {detail}")));
+                        }
+                    }
+                    return Ok(());
                 }
                 DStep::RemoveCrash { d, at, l2 } => {
                     if mode != Mode::Remove || sut.backend != Backend::Disk {
